@@ -17,3 +17,15 @@ pub fn usize_min(a: usize, b: usize) -> (m: usize)
 pub fn usize_from_u8(x: u8) -> (r: usize)
     ensures r == x as usize,
 { x as usize }
+// usize <-> isize conversions: vstd has no TryFrom spec for the pointer-sized pair. The shims keep the std body;
+// `expect` panics exactly when the conversion fails, which is stated as the precondition (trusted: std semantics).
+#[verifier::external_body]
+pub fn usize_to_isize_expect(x: usize, msg: &str) -> (r: isize)
+    requires x <= isize::MAX,
+    ensures r == x,
+{ x.try_into().expect(msg) }
+#[verifier::external_body]
+pub fn isize_to_usize_expect(x: isize, msg: &str) -> (r: usize)
+    requires x >= 0,
+    ensures r == x,
+{ x.try_into().expect(msg) }
